@@ -99,3 +99,70 @@ func runHistory(r *mon.Run) {
 	r.Set("label_histories_on_one_recipient_object", len(hists)*2)
 	r.Count("history_calls_judged", int64(judged))
 }
+
+// runManyLabels: label lists of 60 to 300 labels (a plugin may send that many
+// in one "labels" stanza), two recipients, the lists equal as sets or differing
+// in exactly one label at the front, in the middle, at index 63 / 64 / 65 and at
+// the end, with and without a repeated label, in both orders of the recipients.
+func runManyLabels(r *mon.Run) {
+	base := func(n int) []string {
+		l := make([]string, n)
+		for i := range l {
+			l[i] = fmt.Sprintf("l%03d", i)
+		}
+		return l
+	}
+	n := 0
+	for _, size := range []int{60, 63, 64, 65, 66, 100, 128, 129, 300} {
+		for _, at := range []int{0, size / 2, 62, 63, 64, 65, size - 2, size - 1} {
+			if at < 0 || at >= size {
+				continue
+			}
+			for _, variant := range []string{"equal", "one-differs", "dup-vs-other", "dup-vs-dup", "reversed-equal"} {
+				a, b := base(size), base(size)
+				switch variant {
+				case "one-differs":
+					b[at] = "other"
+				case "dup-vs-other":
+					// a repeats a label where b has a different one: {.., x, x} vs {.., x, y}
+					a[at] = a[(at+1)%size]
+					b[at] = "other"
+				case "dup-vs-dup":
+					a[at] = a[(at+1)%size]
+					b[at] = b[(at+1)%size]
+				case "reversed-equal":
+					for i, j := 0, len(b)-1; i < j; i, j = i+1, j-1 {
+						b[i], b[j] = b[j], b[i]
+					}
+				}
+				sa, sb := labelSpec{labels: a}, labelSpec{labels: b}
+				want := sa.set() == sb.set()
+				if want && sa.multiset() != sb.multiset() {
+					continue // same set, different multiplicity: outside the stated quantifier
+				}
+				for _, order := range [][2]labelSpec{{sa, sb}, {sb, sa}} {
+					calls := 0
+					dst := &mon.ObservingWriter{}
+					w, err := age.Encrypt(dst, mk(order[0], 1, false, &calls), mk(order[1], 2, false, &calls))
+					r.Eval(1)
+					n++
+					desc := fmt.Sprintf("%d labels each, %s at index %d, first=%v", size, variant, at, order[0].set() == sa.set())
+					r.Distinct("many-labels " + desc)
+					replay := map[string]any{"labels": size, "variant": variant, "index": at}
+					switch {
+					case err == nil && !want:
+						r.Violate("many-labels:accepted-incompatible:"+variant, "Encrypt accepted recipients with different label sets: "+desc, replay)
+					case err != nil && want:
+						r.Violate("many-labels:refused-compatible:"+variant, fmt.Sprintf("Encrypt refused recipients with equal label sets: %s: %v", desc, err), replay)
+					case err != nil && dst.Len() != 0:
+						r.Violate("many-labels:bytes-on-refusal", fmt.Sprintf("%s: refused after writing %d bytes", desc, dst.Len()), replay)
+					}
+					if err == nil && w != nil {
+						w.Close()
+					}
+				}
+			}
+		}
+	}
+	r.Count("many_label_lists_judged", int64(n))
+}
